@@ -422,7 +422,7 @@ ENTRY_STATES = [
     "absent", "raw_valid", "raw_valid_gpg_shape", "gpg_valid", "gpg_valid_see_also", "other_payload", "misfiled",
     "bitflip", "truncated", "upper_sig", "extra_field", "nondict", "alt_upper", "alt_space", "alt_0x",
     "alt_inner_space", "alt_nonascii_digit", "alt_mixed_case", "gpg_bad_header", "gpg_other_payload", "gpg_bad_see_also",
-    "gpg_empty_header", "zero_sig", "bare_sig_string", "sig_in_list", "nonascii_value", "scalar_plus_order"]
+    "gpg_empty_header", "zero_sig", "bare_sig_string", "sig_in_list", "nonascii_value", "scalar_plus_order", "empty_dict"]
 
 
 def make_entry(rng, state: str, k: Key, data: bytes, gpg: bool, other: Key):
@@ -448,6 +448,8 @@ def make_entry(rng, state: str, k: Key, data: bytes, gpg: bool, other: Key):
     if state == "misfiled":
         e = raw_entry(other, data) if not gpg else gpg_entry(other, data, hdr)
         return k.hex, e
+    if state == "empty_dict":
+        return k.hex, rng.choice([{}, {"sig": "ab" * 64}, {"other_headers": "04001608"}, {"signature": None}, {"signature": 5}])
     valid = raw_entry(k, data) if not gpg else gpg_entry(k, data, hdr)
     if state == "scalar_plus_order":
         # the classic second encoding of a valid signature: its scalar half plus the group order (RFC 8032 demands S < L: not a valid signature)
